@@ -377,11 +377,20 @@ func (en *enum) instrs(st *state, b *ssa.BasicBlock, from int) {
 			// handled on entry
 		case *ssa.Call:
 			if _, builtin := ins.Call.Value.(*ssa.Builtin); !builtin && len(st.loads) > 0 && !pureCall(&ins.Call) {
-				st.loads = map[string]ssa.Value{}
+				// a callee expanded in place invalidates through its own stores and calls
+				sc := ins.Call.StaticCallee()
+				expanded := sc != nil && ins.Call.Method == nil && fr.depth < 3 && !fr.onStack(sc) && en.shouldInline(fr.fn, sc)
+				if !expanded {
+					st.loads = map[string]ssa.Value{}
+				}
 			}
 			if bl, ok := ins.Call.Value.(*ssa.Builtin); ok && bl.Name() == "len" && len(ins.Call.Args) == 1 {
 				// len of a slice or string VALUE is a pure function of that value
 				arg := st.resolve(ins.Call.Args[0])
+				if k, isConst := arg.(*ssa.Const); isConst && k.Value == nil {
+					// len of a nil slice
+					st.bind[ins] = zeroInt
+				}
 				switch arg.Type().Underlying().(type) {
 				case *types.Slice, *types.Basic:
 					k := "len#" + arg.Name() + "#" + fmt.Sprintf("%p", arg)
@@ -791,6 +800,8 @@ func HasLoop(fn *ssa.Function) bool {
 	}
 	return len(fn.Blocks) > 0 && dfs(fn.Blocks[0])
 }
+
+var zeroInt = ssa.NewConst(constant.MakeInt64(0), types.Typ[types.Int])
 
 func isBuiltin(c *ssa.CallCommon, name string) bool {
 	b, ok := c.Value.(*ssa.Builtin)
